@@ -331,6 +331,7 @@ def run(prog, run):
     r3(prog, run)
     r4(prog, run)
     r5(prog, run)
+    r6(prog, run)
 
 
 # ------------------------------------------------------------------------------------------- R0
@@ -761,3 +762,52 @@ def r5(prog, run):
                               'same request is answered a second time' % (qn, '/'.join(sorted(sigs))))
     if not seen:
         raise AnalysisBroken('C08.R5: no slot that sends an IQ reply found (QXmppTransferManager::_q_jobStateChanged expected)')
+
+
+# ------------------------------------------------------------------------------------------- R6
+def r6(prog, run):
+    rid = run.rule('C08.R6', 'a function that sends the answer to a request whose id was stored earlier (the deferred answer to a bytestream offer) leaves on every path either having '
+                             'sent that answer or having armed what will call it again (a signal connection, a connection attempt, a timer): a path that simply returns - "the job was '
+                             'aborted meanwhile" - leaves the peer\'s request without any reply', floor=1)
+    n = 0
+    for f in prog.fns.values():
+        if f.entry is None or f.is_lambda or '/src/client/' not in f.file or f.raw.get('dependent'):
+            continue
+        # IQ locals whose id is set from a member and that are sent
+        stored = set()
+        for i, c in f.calls():
+            if (f.sym(c) or {}).get('name') == 'setId' and c.get('obj') is not None and c.get('args'):
+                o = f.nodes[f.skip(c['obj'])]
+                a = f.nodes[f.skip(c['args'][0])]
+                if o['k'] == 'var' and o.get('vk') == 'local' and a['k'] == 'mem' and a['name'].lower().endswith('id'):
+                    stored.add(o.get('decl'))
+        sends = [i for i, c in f.calls() if (f.cname(c) or '') in SEND | {'QXmppClient::reply'} and c.get('args')
+                 and f.nodes[f.skip(c['args'][0])].get('decl') in stored]
+        if not sends:
+            continue
+        # only functions that are not themselves slots of the "state changed" kind handled by R5: the answer is sent in a function that retries
+        arms = [i for i, c in f.calls() if (f.cname(c) or '') in ('QObject::connect', 'QTimer::start', 'QTimer::singleShot') or (f.cname(c) or '').endswith('::connectToHost')]
+        if not arms:
+            continue
+        def transfer(g, nid, st, sends=sends, arms=arms):
+            if nid in sends and 'reply' not in st:
+                return st + ('reply',)
+            if nid in arms and 'armed' not in st:
+                return st + ('armed',)
+            return None
+        exits, _ = cfgx.explore(f, (), transfer, None, max_states=20000)
+        # the retry driver: answering (giving up) and arming the next attempt are alternatives - no path does both.  Slots that answer and go on, or that have a
+        # legitimate "nothing to do" exit next to an answer-and-continue path, are R5's subject
+        if any('reply' in st and 'armed' in st for st in exits) or not any(st == ('reply',) for st in exits) or not any(st == ('armed',) for st in exits):
+            continue
+        n += 1
+        run.instance(rid)
+        bad = [(st, w) for st, w in exits.items() if not st]
+        if bad:
+            run.violation(rid, '%s#path-without-answer' % f.qname, f.loc(),
+                          '%s has a path on which it neither sends the stored request\'s answer nor arms another attempt: the request stays unanswered' % f.display()[:60],
+                          cfgx.describe_path(f, bad[0][1]))
+        else:
+            run.ok(rid, f.loc(), 'every path answers the stored request or arms the next attempt (%d paths)' % len(exits))
+    if not n:
+        raise AnalysisBroken('C08.R6: no function answers a stored request id while also arming a retry (QXmppTransferIncomingJob::connectToNextHost expected)')
